@@ -272,6 +272,8 @@ theorem evalTree_bin {op : BinOp} (hl : op ≠ .land) (hr : op ≠ .lor) {a b : 
     | (simp only [evalTree, binSym, Spec.PPInt.BinOp.sym, reduceCtorEq, if_false, ha, hb, lookup_opMap]
        simp [fnOf])
 
+theorem ofBool_v (b : Bool) : (Spec.PPInt.ofBool b).v = Model.PPExpr.ofBool b := rfl
+
 theorem signedOk_ofBool (b : Bool) : signedOk (Spec.PPInt.ofBool b).v = true := by
   cases b <;> decide
 
@@ -295,13 +297,13 @@ theorem evalBin_signed {op : BinOp} (hl : op ≠ .land) (hr : op ≠ .lor) {x y 
     · cases h
     · rename_i hy0
       obtain ⟨rfl, hr'⟩ := arith_signed h
-      simp only [hy0, if_false, intDiv_eq_tdiv]; exact ⟨rfl, hr', rfl⟩
+      rw [if_neg hy0, intDiv_eq_tdiv]; exact ⟨rfl, hr', rfl⟩
   · split at h
     · cases h
     · rename_i hy0
       split at h
       · obtain ⟨rfl, hr'⟩ := arith_signed h
-        simp only [hy0, if_false, intRem_eq_tmod]; exact ⟨rfl, hr', rfl⟩
+        rw [if_neg hy0, intRem_eq_tmod]; exact ⟨rfl, hr', rfl⟩
       · cases h
   · obtain ⟨rfl, hr'⟩ := arith_signed h; exact ⟨rfl, hr', rfl⟩
   · obtain ⟨rfl, hr'⟩ := arith_signed h; exact ⟨rfl, hr', rfl⟩
@@ -325,6 +327,7 @@ theorem evalBin_signed {op : BinOp} (hl : op ≠ .land) (hr : op ≠ .lor) {x y 
       injection h with h; subst h
       refine ⟨rfl, ?_, rfl⟩
       have hx' := (signedOk_iff x).mp hx
+      show signedOk (x / 2 ^ y.toNat) = true
       rw [signedOk_iff]
       have hp : (0 : Int) < 2 ^ y.toNat := Int.pow_pos (by decide)
       by_cases h0 : 0 ≤ x
@@ -338,7 +341,7 @@ theorem evalBin_signed {op : BinOp} (hl : op ≠ .land) (hr : op ≠ .lor) {x y 
           omega
         omega
   all_goals first
-    | (injection h with h; subst h; exact ⟨rfl, signedOk_ofBool _, rfl⟩)
+    | (injection h with h; subst h; exact ⟨rfl, signedOk_ofBool _, by rw [ofBool_v]⟩)
     | (rw [band_signed hx hy] at h; injection h with h; subst h; exact ⟨rfl, signedOk_PyAnd hx hy, rfl⟩)
     | (rw [bxor_signed hx hy] at h; injection h with h; subst h; exact ⟨rfl, signedOk_PyXor hx hy, rfl⟩)
     | (rw [bor_signed hx hy] at h; injection h with h; subst h; exact ⟨rfl, signedOk_PyOr hx hy, rfl⟩)
